@@ -26,7 +26,11 @@ def _run_variant(pid: str, kind: str, name: str, spec: dict) -> dict:
     tmp = Path(tempfile.mkdtemp(prefix="xkthor_"))
     try:
         shutil.copytree(REPO / "xknx", tmp / "xknx", ignore=shutil.ignore_patterns("__pycache__"))
-        if kind == "seed":
+        if kind == "autotwin":
+            shutil.rmtree(tmp / "xknx")
+            from .autotwin import make_twin
+            make_twin(spec["mode"], REPO, tmp)
+        elif kind == "seed":
             r = subprocess.run(["git", "apply", "--whitespace=nowarn", str(spec["patch"])], cwd=tmp, capture_output=True, text=True)
             if r.returncode != 0:
                 return {"name": name, "kind": kind, "result": "not-applicable", "detail": r.stderr.strip()[:160]}
@@ -42,8 +46,14 @@ def _run_variant(pid: str, kind: str, name: str, spec: dict) -> dict:
                 return {"name": name, "kind": kind, "result": "not-applicable", "detail": f"does not compile: {err}"}
         env = dict(os.environ, VERIF_REPO=str(tmp), VERIF_EVIDENCE_DIR=str(tmp / "ev"), VERIF_TIER="quick")
         r = subprocess.run([str(VERIF / "check"), pid, "--tier", "quick"], env=env, capture_output=True, text=True)
-        first = next((l.strip() for l in r.stdout.splitlines() if l.startswith("  FAIL")), "")
-        return {"name": name, "kind": kind, "expect": spec.get("expect", "violation"), "rc": r.returncode, "first_report": first[:200]}
+        first = next((l.strip() for l in r.stdout.splitlines() if l.startswith("  FAIL") or l.startswith("ANALYSIS-ERROR")), "")
+        out = {"name": name, "kind": kind, "expect": spec.get("expect", "violation"), "rc": r.returncode, "first_report": first[:200]}
+        if kind == "autotwin":
+            try:
+                out["obligations"] = json.loads((tmp / "ev" / f"{pid}.json").read_text())["coverage"]["obligations"]
+            except (OSError, KeyError, ValueError):
+                out["obligations"] = None
+        return out
     finally:
         shutil.rmtree(tmp, ignore_errors=True)
 
@@ -63,9 +73,9 @@ def self_test(chk, pid: str) -> None:
     if mj.exists():
         for i, mt in enumerate(json.loads(mj.read_text()).get(pid, [])):
             jobs.append(("mutant", mt.get("name", f"m{i}"), mt))
-    if not jobs:
-        chk.extra["self_test"] = {"variants": 0}
-        return
+    # whole-package behaviour-preserving twins: every function-local renamed; every module re-emitted by ast.unparse
+    jobs.append(("autotwin", "twin-rename-all-locals", {"mode": "rename", "expect": "silent"}))
+    jobs.append(("autotwin", "twin-reformat-all-modules", {"mode": "format", "expect": "silent"}))
     with ThreadPoolExecutor(max_workers=min(16, len(jobs))) as ex:
         res = list(ex.map(lambda j: _run_variant(pid, *j), jobs))
     want_v = [r for r in res if r.get("expect", "violation") == "violation" and "rc" in r]
@@ -73,6 +83,10 @@ def self_test(chk, pid: str) -> None:
     killed = [r for r in want_v if r["rc"] == 1]
     weak = [r for r in want_v if r["rc"] != 1]
     noisy = [r for r in want_s if r["rc"] != 0]
+    # a twin must also give the same number of obligations (a rule silently matching nothing is as wrong as an alarm)
+    drift = [r for r in want_s if r.get("kind") == "autotwin" and r["rc"] == 0 and r.get("obligations") not in (None, len(chk.obligations))]
+    for r in drift:
+        print(f"  CHECKER-NOISY {pid}: twin {r['name']} yields {r['obligations']} obligations, the tree itself {len(chk.obligations)} (a rule depends on naming / layout)")
     chk.extra["self_test"] = {
         "variants": len(res), "mutants_killed": len(killed), "mutants_total": len(want_v), "twins_silent": len(want_s) - len(noisy), "twins_total": len(want_s),
         "checker_weak": [{"name": r["name"], "rc": r["rc"]} for r in weak], "checker_noisy": [{"name": r["name"], "rc": r["rc"], "report": r.get("first_report", "")} for r in noisy],
